@@ -67,8 +67,10 @@ StreamFails(e) ==
   IN  (IF e.err \in {"", "error"} THEN <<>> ELSE <<"C09.total">>)
    \o (IF must /\ ~ok THEN <<"C07.accept">> ELSE <<>>)
    \o (IF ok /\ must /\ (carried # exp \/ ~lenOK) THEN <<"C06.bytes">> ELSE <<>>)
-   \o (IF ok /\ must /\ (e.derr # "" \/ ~Has(e, "back")) THEN <<"C07.stream">>
-       ELSE IF ok /\ must /\ e.back # QuantCmds(e) THEN <<"C07.stream">>
+   \* the commands decoded from a frame that carries several of them are the commands that were encoded
+   \* (C07: the stream is self-delimiting; C06: decoding spec-encoded bytes yields the spec field values)
+   \o (IF ok /\ must /\ (e.derr # "" \/ ~Has(e, "back")) THEN <<"C07.stream", "C06.decode">>
+       ELSE IF ok /\ must /\ e.back # QuantCmds(e) THEN <<"C07.stream", "C06.decode">>
        ELSE <<>>)
 
 \* ---- lookup -------------------------------------------------------------------------------------
